@@ -4,11 +4,19 @@ package c08
 import (
 	"bytes"
 	"context"
+	"crypto/ecdsa"
+	"crypto/elliptic"
+	crand "crypto/rand"
+	"crypto/tls"
+	"crypto/x509"
+	"crypto/x509/pkix"
 	"encoding/binary"
 	"errors"
 	"fmt"
 	"io"
 	"log/slog"
+	"math/big"
+	"net"
 	"strings"
 	"sync"
 	"sync/atomic"
@@ -50,7 +58,10 @@ func (w *world) open(id string) {
 	close(w.gate(id))
 }
 
-func newWorld() *world {
+func newWorld() *world { return newWorldOn(nil) }
+
+// newWorldOn starts the server on the in-memory listener, optionally wrapped (TLS).
+func newWorldOn(wrap func(net.Listener) net.Listener) *world {
 	w := &world{l: memnet.Listen(), done: make(chan error, 1)}
 	ex := kmipserver.NewBatchExecutor()
 	ex.Route(kmip.OperationActivate, kmipserver.HandleFunc(func(ctx context.Context, req *payloads.ActivateRequestPayload) (*payloads.ActivateResponsePayload, error) {
@@ -86,9 +97,179 @@ func newWorld() *world {
 		}
 		return &payloads.ActivateResponsePayload{UniqueIdentifier: id}, nil
 	}))
-	w.srv = kmipserver.NewServer(w.l, ex)
+	var ln net.Listener = w.l
+	if wrap != nil {
+		ln = wrap(w.l)
+	}
+	w.srv = kmipserver.NewServer(ln, ex)
 	go func() { w.done <- w.srv.Serve() }()
 	return w
+}
+
+var (
+	tlsOnce   sync.Once
+	tlsServer *tls.Config
+	tlsClient *tls.Config
+)
+
+func tlsConfigs() (*tls.Config, *tls.Config) {
+	tlsOnce.Do(func() {
+		key, err := ecdsa.GenerateKey(elliptic.P256(), crand.Reader)
+		if err != nil {
+			panic(err)
+		}
+		tpl := &x509.Certificate{SerialNumber: big.NewInt(1), Subject: pkix.Name{CommonName: "verif"}, NotBefore: time.Unix(0, 0), NotAfter: time.Unix(4102444800, 0),
+			KeyUsage: x509.KeyUsageDigitalSignature, ExtKeyUsage: []x509.ExtKeyUsage{x509.ExtKeyUsageServerAuth}, DNSNames: []string{"verif"}}
+		der, err := x509.CreateCertificate(crand.Reader, tpl, tpl, &key.PublicKey, key)
+		if err != nil {
+			panic(err)
+		}
+		tlsServer = &tls.Config{Certificates: []tls.Certificate{{Certificate: [][]byte{der}, PrivateKey: key}}}
+		tlsClient = &tls.Config{InsecureSkipVerify: true, ServerName: "verif"}
+	})
+	return tlsServer, tlsClient
+}
+
+// tlsCase: a TLS listener; peers that stall in, garble or abandon the TLS handshake must not keep any other
+// client from being served, must not survive their own connection, and must not keep Shutdown from returning.
+func tlsCase(c *core.Ctx, r *core.Rand, i int) {
+	base := len(census.Goroutines())
+	scfg, ccfg := tlsConfigs()
+	w := newWorldOn(func(l net.Listener) net.Listener { return tls.NewListener(l, scfg) })
+	tag := fmt.Sprintf("t%d", i)
+	K := 1 + r.Intn(6)
+	kinds := ""
+	var mu sync.Mutex
+	var stallers []*memnet.Conn
+	var swg sync.WaitGroup
+	for k := 0; k < K; k++ {
+		kind := r.Intn(5)
+		if k == 0 {
+			kind = r.Intn(2) // at least one peer that says nothing (or too little) and stays
+		}
+		kinds += fmt.Sprint(kind)
+		junk := r.Bytes(64)
+		swg.Add(1)
+		go func() {
+			defer swg.Done()
+			conn, err := w.l.Dial() // returns once the accept loop has taken the connection
+			if err != nil {
+				return
+			}
+			mu.Lock()
+			stallers = append(stallers, conn)
+			mu.Unlock()
+			switch kind {
+			case 0: // silent
+			case 1: // a record header announcing a ClientHello that never comes
+				conn.Write([]byte{0x16, 0x03, 0x01, 0x40, 0x00, 0x01})
+			case 2: // garbage instead of a ClientHello
+				conn.Write(junk)
+			case 3: // gone at once
+				conn.Close()
+			default: // a plain-text KMIP request on the TLS port
+				conn.Write(request(tag + "-plaintext-ok"))
+			}
+		}()
+		c.Count(fmt.Sprintf("tls_hostile_peers.kind%d", kind), 1)
+	}
+	// well-behaved TLS clients, while the hostile peers are still there
+	served := func(k int) string {
+		res := make(chan string, 1)
+		go func() {
+			conn, err := w.l.Dial()
+			if err != nil {
+				res <- "dial: " + err.Error()
+				return
+			}
+			defer conn.Close()
+			tc := tls.Client(conn, ccfg)
+			if err := tc.Handshake(); err != nil {
+				res <- "handshake: " + err.Error()
+				return
+			}
+			st := ttlv.NewStream(tc, 1<<20)
+			id := fmt.Sprintf("%s-good-%d-ok", tag, k)
+			var m kmip.RequestMessage
+			ttlv.UnmarshalTTLV(request(id), &m)
+			if err := st.Send(&m); err != nil {
+				res <- "send: " + err.Error()
+				return
+			}
+			var resp kmip.ResponseMessage
+			if err := st.Recv(&resp); err != nil {
+				res <- "recv: " + err.Error()
+				return
+			}
+			if len(resp.BatchItem) != 1 || string(resp.BatchItem[0].UniqueBatchItemID) != id {
+				res <- "wrong response"
+				return
+			}
+			res <- ""
+		}()
+		select {
+		case s := <-res:
+			return s
+		case <-time.After(15 * time.Second):
+			return "not served within 15 s"
+		}
+	}
+	good := 1 + r.Intn(3)
+	stopServing := false
+	for k := 0; k < good; k++ {
+		c.Count("tls_good_clients", 1)
+		if why := served(k); why != "" {
+			c.Violation("C08:stops-serving:peer-stalls-in-tls-handshake", fmt.Sprintf("a well-behaved TLS client is not served while %d other peers (kinds %s) stall in or garble their TLS handshake: %s", K, kinds, why), nil)
+			stopServing = true
+			break
+		}
+	}
+	c.Distinct(core.Hash64("tls", kinds, fmt.Sprint(good)))
+	shutdownWhileStalled := i%3 == 0 && !stopServing
+	closeStallers := func() {
+		// dials that are still waiting for the accept loop are given up as well
+		done := make(chan struct{})
+		go func() { swg.Wait(); close(done) }()
+		select {
+		case <-done:
+		case <-time.After(10 * time.Second):
+		}
+		mu.Lock()
+		for _, s := range stallers {
+			s.Close()
+		}
+		mu.Unlock()
+	}
+	if !shutdownWhileStalled {
+		closeStallers()
+		if left := census.Settle(base+1, 10*time.Second); len(left) > 0 {
+			for _, g := range left {
+				if !strings.Contains(g, "kmipserver.(*Server).Serve") {
+					c.Violation("C08:goroutines-left:"+census.BlockedIn(g), fmt.Sprintf("a library goroutine remains after every TLS peer (kinds %s) has gone, blocked in %s", kinds, census.BlockedIn(g)), map[string]any{"goroutine": g})
+					break
+				}
+			}
+		}
+		c.Count("census_checks", 1)
+	} else {
+		c.Count("tls_shutdowns_with_stalled_peers", 1)
+	}
+	shut := make(chan error, 1)
+	go func() { shut <- w.srv.Shutdown() }()
+	select {
+	case <-shut:
+	case <-time.After(20 * time.Second):
+		what := "although no connection is left"
+		if shutdownWhileStalled {
+			what = "while peers stall in their TLS handshake (the grace period is 3 s)"
+		}
+		c.Violation("C08:shutdown-does-not-return:tls", fmt.Sprintf("Shutdown did not return within 20 s %s (kinds %s)", what, kinds), map[string]any{"goroutines": census.Goroutines()})
+		closeStallers()
+		return
+	}
+	<-w.done
+	closeStallers()
+	c.Count("tls_histories", 1)
 }
 
 func request(id string) []byte {
@@ -744,7 +925,7 @@ func Spec() *core.Spec {
 			"every request and response carries a unique id (Unique Batch Item ID) so each connection's received sequence is checked against its sent sequence (exactly once, in order, never more; complete when the client drained); " +
 			"the binary hostile corpus of C02 (length/type ladders over every item of valid requests, random mutations) fed one input per connection; a canary connection is pinged throughout; goroutine census at quiescence; Shutdown at the end; directed schedules through the verif hooks. The worker process is the crash monitor. distinct = distinct per-connection action sequences",
 		Assumptions: []string{"a connection closed abruptly by the client may end short, never long or out of order", "goroutines gone = none with a library frame (other than the accept loop) within 10 s of the last connection ending"},
-		Required: []string{"histories", "connections", "responses_received", "graceful_connections_fully_answered", "canary_pings", "census_checks", "undecodable_requests.kind0", "undecodable_requests.kind1",
+		Required: []string{"histories", "tls_histories", "tls_good_clients", "tls_hostile_peers.kind0", "tls_hostile_peers.kind1", "tls_shutdowns_with_stalled_peers", "connections", "responses_received", "graceful_connections_fully_answered", "canary_pings", "census_checks", "undecodable_requests.kind0", "undecodable_requests.kind1",
 			"directed.client-gone-while-send-holds-tx", "hostile_inputs_framed", "hostile_rounds"},
 		Shards: func(string) int { return 8 },
 		Families: []core.Family{
@@ -760,6 +941,12 @@ func Spec() *core.Spec {
 				}
 				return 12
 			}, Run: hostileFrames, Timeout: 90 * time.Second},
+			{Name: "tls", N: func(tier string) int {
+				if tier == core.Thorough {
+					return 600
+				}
+				return 24
+			}, Run: tlsCase, Timeout: 120 * time.Second},
 			{Name: "undecodable", Exhaustive: true, N: func(string) int { return 12 }, Run: undecodableCase, Timeout: 30 * time.Second},
 			{Name: "directed", N: func(tier string) int {
 				if tier == core.Thorough {
